@@ -42,7 +42,7 @@ pub fn gen_sequence(g: &mut Gen, cfg: &PicCfg, max: usize) -> Vec<Pic> {
     let n = g.range(1, max as i64) as usize;
     let mut pics = Vec::with_capacity(n);
     let first = gen_intra_pic_with(g, cfg, mode, version, size);
-    let like = first.hdr.clone();
+    let mut like = first.hdr.clone();
     pics.push(first);
     for _ in 1..n {
         let k = if mode == Mode::Sorenson { g.weighted(&[2, 5, 3]) } else { g.weighted(&[2, 6]) };
@@ -50,7 +50,10 @@ pub fn gen_sequence(g: &mut Gen, cfg: &PicCfg, max: usize) -> Vec<Pic> {
             0 => {
                 // occasionally change the size at an I picture
                 let sz = if g.chance(1, 4) { gen_size(g, mode, cfg) } else { size };
-                gen_intra_pic_with(g, cfg, mode, version, sz)
+                let i = gen_intra_pic_with(g, cfg, mode, version, sz);
+                // later predicted pictures follow this picture (size, modes a header may inherit)
+                like = i.hdr.clone();
+                i
             }
             1 => gen_inter_pic(g, cfg, &like, PicType::P, false),
             _ => gen_inter_pic(g, cfg, &like, PicType::D, false),
@@ -107,6 +110,14 @@ fn stream_case(g: &mut Gen, cfg: &PicCfg) -> Verdict {
     let mut rb = H263Reader::from_source(&stream[..]);
     let mut sc = H263State::new(options_scal(mode, scal));
     let mut rc = H263Reader::from_source(Chunked::new(&stream, chunk));
+    // (d) concatenated, through a source whose read calls are interrupted now and then (a pipe
+    // or socket during signal delivery): every reader of a `Read` retries those, invisibly
+    let schedule: Vec<u8> = {
+        let n = g.range(1, 6) as usize;
+        (0..n).map(|_| g.below(3) as u8).collect()
+    };
+    let mut sd = H263State::new(options_scal(mode, scal));
+    let mut rd = H263Reader::from_source(crate::io::Flaky::new(&stream, chunk + 1, schedule.clone(), false));
     for i in 0..encoded.len() {
         let ob = decode_call(&mut sb, &mut rb);
         let db = last_digest(&sb);
@@ -131,9 +142,17 @@ fn stream_case(g: &mut Gen, cfg: &PicCfg) -> Verdict {
                 i, chunk, oc.short(), dc, ta[i].0.short(), ta[i].1
             ));
         }
+        let od = decode_call(&mut sd, &mut rd);
+        let dd = last_digest(&sd);
+        if (od.clone(), dd) != ta[i] {
+            return Verdict::fail(format!(
+                "call {} on the concatenated stream through a Read source that reports ErrorKind::Interrupted on some calls (schedule {:?}, up to {} bytes per call): result {} / {:016x}, own-reader result {} / {:016x}",
+                i, schedule, chunk + 1, od.short(), dd, ta[i].0.short(), ta[i].1
+            ));
+        }
     }
     // the concatenated readers must now be at the end of the last picture's macroblock data
-    for (name, rest) in [("slice", drain_bits(&mut rb)), ("chunked", drain_bits(&mut rc))] {
+    for (name, rest) in [("slice", drain_bits(&mut rb)), ("chunked", drain_bits(&mut rc)), ("interrupted", drain_bits(&mut rd))] {
         if rest.len() > 7 || rest.iter().any(|b| *b) {
             return Verdict::fail(format!(
                 "after the last call the {} reader still holds {} bits ({} of them set): not positioned at the end of the picture",
@@ -236,17 +255,66 @@ pub fn cfg_for(tier: Tier) -> PicCfg {
     }
 }
 
+/// Pictures of very many macroblocks (65 536 and more; up to 65 535 samples in one dimension)
+/// followed by a small picture in the same reader: the call for the huge picture must stop at
+/// its end, so that the next call decodes the small picture as it decodes in its own reader.
+const HUGE: [(u16, u16); 5] = [(4096, 4096), (16, 65535), (65535, 16), (4112, 4096), (8192, 2064)];
+
+fn huge_item(i: u64, acc: &mut Acc) {
+    let (w, h) = HUGE[i as usize];
+    let big = super::c13::cheap_intra(Mode::Sorenson, (i % 2) as u8, Size::Custom16(w, h), 5, i as usize);
+    let small = super::c13::cheap_intra(Mode::Sorenson, (i % 2) as u8, Size::Custom8(32, 16), 9, 3 + i as usize);
+    let (bb, sb) = (encode_pic(&big), encode_pic(&small));
+    let fail = |acc: &mut Acc, m: String| acc.fail(json!({"kind":"params","huge":i}), format!("{}x{} picture ({} macroblocks, {} bytes) then a 32x16 picture: {}", w, h, big.mbs.len(), bb.len(), m));
+    let mut own = H263State::new(options_scal(Mode::Sorenson, false));
+    let o1 = decode_bytes(&mut own, &bb);
+    let d1 = last_digest(&own);
+    let o2 = decode_bytes(&mut own, &sb);
+    let d2 = last_digest(&own);
+    if !o1.is_ok() || !o2.is_ok() {
+        fail(acc, format!("not decoded in their own readers: {} / {}", o1.short(), o2.short()));
+        return;
+    }
+    let dims_ok = own.get_last_picture().map(|p| p.as_yuv().0.len()) == Some(32 * 16);
+    let stream: Vec<u8> = bb.iter().chain(sb.iter()).copied().collect();
+    let mut st = H263State::new(options_scal(Mode::Sorenson, false));
+    let mut r = H263Reader::from_source(&stream[..]);
+    let c1 = decode_call(&mut st, &mut r);
+    let e1 = last_digest(&st);
+    let big_len = st.get_last_picture().map(|p| p.as_yuv().0.len());
+    let c2 = decode_call(&mut st, &mut r);
+    let e2 = last_digest(&st);
+    acc.count(true);
+    acc.count(true);
+    if big_len != Some(w as usize * h as usize) {
+        fail(acc, format!("first call gave a picture of {:?} luma samples", big_len));
+    } else if (c1.clone(), e1) != (o1.clone(), d1) {
+        fail(acc, format!("first call on the stream: {} / {:016x}; own reader: {} / {:016x}", c1.short(), e1, o1.short(), d1));
+    } else if (c2.clone(), e2) != (o2.clone(), d2) || !dims_ok {
+        fail(acc, format!("second call on the stream: {} / {:016x}; the small picture in its own reader: {} / {:016x}", c2.short(), e2, o2.short(), d2));
+    } else {
+        let rest = drain_bits(&mut r);
+        if rest.len() > 7 || rest.iter().any(|b| *b) {
+            fail(acc, format!("after both calls the reader still holds {} bits", rest.len()));
+        }
+    }
+    if i == 0 {
+        acc.sample(|| json!({"huge_then_small": format!("{:?}", HUGE), "macroblocks_of_first": big.mbs.len()}));
+    }
+}
+
 pub fn run(ctx: &Ctx) -> i32 {
     let cfg = cfg_for(ctx.tier);
     let mut reports = vec![super::regression_suite(ctx)];
     let cases = ctx.tier.pick(60_000u64, 1_200_000u64);
     reports.push(tape_suite(ctx, "stream_vs_own_reader", cases, 8192, &move |g| stream_case(g, &cfg)));
     reports.push(exhaustive_suite(ctx, "long_streams", ctx.tier.pick(6u64, 24u64), &long_stream_item));
+    reports.push(exhaustive_suite(ctx, "huge_picture_then_next", ctx.tier.pick(3u64, 5u64), &huge_item));
     finish(
         ctx,
         reports,
         Summary {
-            rule: "Sequences of 1..6 valid pictures (I/P/disposable, Sorenson v0/v1 and standard, any size incl. size changes at I pictures), each zero-padded to the byte boundary (0..7 bits), decoded (a) one reader per picture, (b) concatenated in one slice reader, (c) concatenated through a Read source that yields 1..5 bytes per call. Oracle: result and digest of get_last_picture() after call i are identical in (a), (b), (c); afterwards the concatenated reader holds at most 7 bits, all zero. Non-trivial = at least two pictures and at least one ends off a byte boundary; distinct by stream bytes.",
+            rule: "Sequences of 1..6 valid pictures (I/P/disposable, Sorenson v0/v1 and standard, any size incl. size changes at I pictures), each zero-padded to the byte boundary (0..7 bits), decoded (a) one reader per picture, (b) concatenated in one slice reader, (c) concatenated through a Read source that yields 1..5 bytes per call, (d) concatenated through a Read source some of whose calls report ErrorKind::Interrupted. Oracle: result and digest of get_last_picture() after call i are identical in (a), (b), (c), (d); huge_picture_then_next: pictures of 65 536 and more macroblocks (and of 65 535 samples in one dimension) followed by a small picture in the same reader; afterwards the concatenated reader holds at most 7 bits, all zero. Non-trivial = at least two pictures and at least one ends off a byte boundary; distinct by stream bytes.",
             assumptions: vec!["pictures in a stream are byte aligned by fewer than eight zero bits (as the property states)".into()],
             exhaustive: false,
             extra: Map::new(),
@@ -258,6 +326,14 @@ pub fn replay(suite: &str, case: &Value) -> Option<Verdict> {
     if suite == "long_streams" {
         let mut acc = Acc::default();
         long_stream_item(case["long_stream"].as_u64()?, &mut acc);
+        return Some(match acc.failure {
+            Some((_, _, m, _)) => Verdict::fail(m),
+            None => Verdict::pass(true, 0),
+        });
+    }
+    if suite == "huge_picture_then_next" {
+        let mut acc = Acc::default();
+        huge_item(case["huge"].as_u64()?, &mut acc);
         return Some(match acc.failure {
             Some((_, _, m, _)) => Verdict::fail(m),
             None => Verdict::pass(true, 0),
